@@ -200,6 +200,11 @@ func typeTestsConsistent(path []*ssa.BasicBlock) bool {
 		if b, isB := iff.Cond.(*ssa.BinOp); isB && pureFieldCond(b) {
 			taken := path[i+1] == path[i].Succs[0]
 			ks := ex(b)
+			if b.Op == token.NEQ {
+				// `x != y` is the negation of `x == y`: one fact, whichever way it is tested
+				ks = "(" + ex(b.X) + " == " + ex(b.Y) + ")"
+				taken = !taken
+			}
 			if prev, has := pure[ks]; has && prev != taken {
 				return false
 			}
@@ -556,7 +561,7 @@ func orStr(a, b string) string {
 // ruleKeyPlumbing: configuration forwarded field by field.
 func ruleKeyPlumbing(c *Ctx, rule string) {
 	r := c.R
-	r.Rule(rule, "configuration plumbing: Channel.initialize builds frame.ReadWriter{InKey: node.InKey, DialectRW, transport} and streamwriter.Writer{Key: node.OutKey, SignatureLinkID: the channel's random link id, SystemID, ComponentID, Version}; "+
+	r.Rule(rule, "configuration plumbing: Channel.initialize builds frame.ReadWriter{InKey: node.InKey, DialectRW, transport} and streamwriter.Writer{Key: node.OutKey, SignatureLinkID: the channel's link id (however obtained), SystemID, ComponentID, Version}; "+
 		"frame.ReadWriter.Initialize / NewReader / NewWriter / NewReadWriter / NewNode forward every configuration field to the like-named field", 6)
 	type lit struct {
 		pkg, fn, typ string
@@ -565,7 +570,7 @@ func ruleKeyPlumbing(c *Ctx, rule string) {
 	lits := []lit{
 		{"root", "Channel.initialize", "frame.ReadWriter", map[string]string{"ByteReadWriter": "recv.rwc", "DialectRW": "recv.node.dialectRW", "InKey": "recv.node.InKey"}},
 		{"root", "Channel.initialize", "streamwriter.Writer", map[string]string{"FrameWriter": "recv.frameWriter.Writer", "SystemID": "recv.node.OutSystemID", "ComponentID": "recv.node.OutComponentID",
-			"SignatureLinkID": "gomavlib.randomByte()#0", "Key": "recv.node.OutKey"}},
+			"SignatureLinkID": "<any>", "Key": "recv.node.OutKey"}},
 		{"pkg/frame", "NewReader", "frame.Reader", map[string]string{"ByteReader": "arg0.Reader", "DialectRW": "arg0.DialectRW", "InKey": "arg0.InKey"}},
 		{"pkg/frame", "NewWriter", "frame.Writer", map[string]string{"ByteWriter": "arg0.Writer", "DialectRW": "arg0.DialectRW", "OutVersion": "arg0.OutVersion", "OutSystemID": "arg0.OutSystemID",
 			"OutComponentID": "arg0.OutComponentID", "OutSignatureLinkID": "arg0.OutSignatureLinkID", "OutKey": "arg0.OutKey"}},
@@ -589,6 +594,14 @@ func ruleKeyPlumbing(c *Ctx, rule string) {
 		lf := litFields(as[0])
 		var probs []string
 		for f, w := range l.want {
+			if w == "<any>" {
+				// how the channel obtains its link id (random, counter, configuration) is not part of any property;
+				// that the writer stamps the link id it was given is R6.3
+				if lf[f] == nil {
+					probs = append(probs, f+" is not set")
+				}
+				continue
+			}
 			if g := exOrNil(lf[f]); g != w {
 				probs = append(probs, f+" ← "+g+" (expected "+w+")")
 			}
@@ -737,6 +750,7 @@ func runC07(c *Ctx) {
 	// the refusal: the If whose true edge returns the "too old" ReadError. Identified structurally: an ordering
 	// comparison involving SignatureTimestamp and curReadSignatureTime whose one edge returns an error.
 	var winIf *ssa.If
+	refuseIdx := 0
 	for _, iff := range ifsIn(fn) {
 		b, ok := iff.Cond.(*ssa.BinOp)
 		if !ok {
@@ -751,9 +765,11 @@ func runC07(c *Ctx) {
 		if !strings.Contains(s, "SignatureTimestamp") || !strings.Contains(s, "curReadSignatureTime") {
 			continue
 		}
-		tb := iff.Block().Succs[0]
-		if ret, ok := tb.Instrs[len(tb.Instrs)-1].(*ssa.Return); ok && len(ret.Results) == 2 && !isNilConst(ret.Results[1]) {
-			winIf = iff
+		// the refusal may sit on either side (`if old { refuse }` or `if fresh { accept } else { refuse }`)
+		for si, tb := range iff.Block().Succs {
+			if ret, ok := tb.Instrs[len(tb.Instrs)-1].(*ssa.Return); ok && len(ret.Results) == 2 && !isNilConst(ret.Results[1]) {
+				winIf, refuseIdx = iff, si
+			}
 		}
 	}
 	r.Rule("R7.1", "window arithmetic cannot wrap: in Reader.Read no ordering comparison consumes the result of an unsigned subtraction unless a dominating guard establishes minuend ≥ subtrahend "+
@@ -764,6 +780,12 @@ func runC07(c *Ctx) {
 		r.Fail("R7.2", "Reader.Read window test", c.Pos(fn.Pos()), "no comparison between the frame's SignatureTimestamp and the remembered maximum that refuses old frames: replayed frames are accepted")
 	} else {
 		b := winIf.Cond.(*ssa.BinOp)
+		if refuseIdx == 1 {
+			// refusal on the false edge: the refusal condition is the negated comparison
+			nb := *b
+			nb.Op = map[token.Token]token.Token{token.LSS: token.GEQ, token.GEQ: token.LSS, token.GTR: token.LEQ, token.LEQ: token.GTR}[b.Op]
+			b = &nb
+		}
 		// R7.1: unsigned SUB feeding the comparison
 		bad71 := ""
 		var subs []*ssa.BinOp
@@ -845,7 +867,8 @@ func runC07(c *Ctx) {
 			for _, iff := range ifsIn(fn) {
 				if g, ok := iff.Cond.(*ssa.BinOp); ok {
 					gs := ex(g)
-					if (g.Op == token.GTR && gs == "("+v+" > recv.curReadSignatureTime)") || (g.Op == token.LSS && gs == "(recv.curReadSignatureTime < "+v+")") {
+					if (g.Op == token.GTR && gs == "("+v+" > recv.curReadSignatureTime)") || (g.Op == token.LSS && gs == "(recv.curReadSignatureTime < "+v+")") ||
+						(g.Op == token.GEQ && gs == "("+v+" >= recv.curReadSignatureTime)") || (g.Op == token.LEQ && gs == "(recv.curReadSignatureTime <= "+v+")") { // storing an equal value leaves the maximum as it is
 						if edgeMustPass(fn, edge{iff.Block(), iff.Block().Succs[0]}, st.Block()) {
 							mono = true
 						}
@@ -860,7 +883,7 @@ func runC07(c *Ctx) {
 			}
 			if winIf != nil {
 				// the store must not be reachable through the refusal edge, and must come after the window test
-				if reachFrom(winIf.Block().Succs[0], nil, nil)[st.Block()] && !reachFrom(winIf.Block().Succs[1], nil, nil)[st.Block()] {
+				if reachFrom(winIf.Block().Succs[refuseIdx], nil, nil)[st.Block()] && !reachFrom(winIf.Block().Succs[1-refuseIdx], nil, nil)[st.Block()] {
 					probs = append(probs, "the window moves on the refusal edge")
 				}
 				if reachInstr(st, winIf) {
@@ -956,6 +979,8 @@ func runC09(c *Ctx) {
 	r := c.R
 	defer borrowRules(c, "C01", runC01inner, map[string]string{"R1.6": "R9.6"}, "the checksum stamped by the originator is correct only for the payload that is then marshalled unchanged and whole")
 	defer ruleKeyPlumbing(c, "R9.7")
+	defer ruleCodecNoSharedWrites(c, "R9.8", "C09: the checksum of an originated frame is computed with the codec looked up for its own message id, whatever other goroutines look up at the same time")
+	defer borrowRules(c, "C02", runC02, map[string]string{"R2.1": "R9.9"}, "the checksum stamped on an originated frame is correct only if the hash covers every header byte, including all three bytes of a v2 message id")
 	r.NotDecided = append(r.NotDecided,
 		"the emitted sequence over long histories as an observation (the modulo-256 wrap is the uint8 type's)",
 		"frame.Writer.WriteMessage's deprecated path has no initialisation-time validation; the statement's refusal clause is anchored at streamwriter.Writer / Node")
@@ -1241,6 +1266,35 @@ func runC09(c *Ctx) {
 			}
 			if kind(v1b) == "&lit:frame.V1Frame" && kind(v2b) == "&lit:frame.V2Frame" {
 				ok = true
+			}
+			// single hand-over of a frame variable assigned in the two branches
+			for _, ci := range callsNamed(fn, w.callee) {
+				a := ci.Common().Args[len(ci.Common().Args)-1]
+				p, isPhi := peel(a).(*ssa.Phi)
+				if !isPhi || len(p.Edges) != 2 {
+					continue
+				}
+				good := 0
+				for i, e := range p.Edges {
+					al := underlyingAlloc(peel(e))
+					if al == nil {
+						continue
+					}
+					if v := litFields(al)["Message"]; v == nil || ex(v) != "arg0" {
+						continue
+					}
+					pred := p.Block().Preds[i]
+					side := func(b *ssa.BasicBlock) bool {
+						return pred == b || (b != p.Block() && edgeMustPass(fn, edge{iff.Block(), b}, pred)) || (pred == iff.Block() && b == p.Block())
+					}
+					t := typeStr(al.Type().(*types.Pointer).Elem())
+					if (t == "frame.V1Frame" && side(v1b)) || (t == "frame.V2Frame" && side(v2b)) {
+						good++
+					}
+				}
+				if good == 2 {
+					ok = true
+				}
 			}
 		}
 		r.Check(ok, "R9.2", w.fn+" version dispatch", c.Pos(fn.Pos()), "version 1 → *V1Frame{Message: msg}, otherwise *V2Frame{Message: msg}", "the configured version does not select the frame kind (V1 → V1Frame, else V2Frame) wrapping the caller's message")
